@@ -64,3 +64,8 @@ N("c12-n-else-raise", "C12", MEM, SN,
 N("c12-n-deliver-nested", "C12", A, "CancelScope._deliver_cancellation",
   "                if not isinstance(waiter, asyncio.Future) or not waiter.done():\n                    task.cancel(origin._cancel_reason)",
   "                if not (isinstance(waiter, asyncio.Future) and waiter.done()):\n                    task.cancel(origin._cancel_reason)")
+
+# from seeded change C12/b
+M("c12-skip-stops-at-cancelled-receiver", "C12", MEM, "MemoryObjectSendStream.send_nowait",
+  "            if not receiver.task_info.has_pending_cancellation():\n                receiver.item = item\n                receive_event.set()\n                return\n",
+  "            if receiver.task_info.has_pending_cancellation():\n                break\n\n            receiver.item = item\n            receive_event.set()\n            return\n", ["R12-c"])
